@@ -38,6 +38,7 @@ type rig struct {
 	gcWindows  int             // observations made with the collector switched off (this half)
 	lastOpen   int             // backend connections open at the end of the previous read case
 	attributed int             // open backend connections already reported under a fault class
+	wseqBad    int             // findings raised by this rig's write sequences
 	used       map[string]bool // keys handed out so far
 	lies       map[string]bool // keys for which the backend lied self-consistently (their cached form is not judged)
 }
